@@ -99,6 +99,7 @@ def real_law(item):
         return {"error": f"compile: {type(e).__name__}: {e}"}
     M = prog["maxIter"]
     names = info["outnames"]
+    nobj = sum(1 for e in names if e[0] == "prop")
 
     def run(_s):
         try:
@@ -106,11 +107,14 @@ def real_law(item):
         except RejectionException:
             return ("exhausted", M)
         out = []
-        for kind, nm in names:
+        for entry in names:
+            kind, nm = entry[0], entry[1]
             if kind == "param":
                 out.append(_norm(scene.params[nm]))
-            else:
-                out.append(_norm(getattr(scene.objects[0], nm)))
+            else:   # a property of the k-th object created by the program; Scene.objects lists the ego (the
+                # last one assigned to `ego`, here the last one created) first, then the others in creation order
+                k = entry[2] if len(entry) > 2 else 0
+                out.append(_norm(getattr(scene.objects[0 if k == nobj - 1 else k + 1], nm)))
         return (tuple(out), its)
 
     law = {}
@@ -153,7 +157,11 @@ def main(tier):
     if tier == "quick":
         # the quick tier takes every third core program (rotating with the seed) and all random ones
         core = [c for i, c in enumerate(core) if i % 3 == seed() % 3]
-    items = core + rand
+    # programs that assign `ego` twice, with requirements / variables / parameters mentioning ego.foo in between
+    ecore = gen_discrete.ego_core()
+    if tier == "quick":
+        ecore = ecore[seed() % 2 :: 2]
+    items = core + ecore + rand
     for i, (_t, _p, info) in enumerate(items):
         info["mode2D"] = i % 4 == 3  # every fourth program is compiled in 2D compatibility mode
     ck.cov["dropped_by_generator"] = dropped
